@@ -255,7 +255,7 @@ def gen_table(rng, shape_kind, dims, gap=None):
                     st=[_sig(sref * 10 ** rng.uniform(-0.5, 0.5)) for _ in range(c)], sref=sref)
     if shape_kind == 'beamCX':
         ms = {}
-        for m in sorted(rng.sample([1, 2, 3], rng.randint(1, 2))):
+        for m in sorted(rng.sample(range(1, 13), rng.randint(1, 3))):      # up to 12: as JSON keys "10" sorts before "2"
             a, b, c, d, e = dims
             qref = _sig(10 ** rng.uniform(-15, -13))
 
@@ -442,7 +442,7 @@ def call_accessor(spec, a, species, ch, tr):
 
 def charges_for(rng, name, species):
     z = _elem(species[-1]).atomic_number
-    ch = dict(charge=rng.randint(1, z), donor_charge=0, metastable=rng.randint(1, 3))
+    ch = dict(charge=rng.randint(1, z), donor_charge=0, metastable=rng.randint(1, 12))
     return ch
 
 
@@ -1194,7 +1194,7 @@ DEGENERATE = {
 }
 
 
-def numeric_case(ctx, cat, repo, name, dims, ex, gap=None, fixed=None, steep=None, degen=None, keep_root=False):
+def numeric_case(ctx, cat, repo, name, dims, ex, gap=None, fixed=None, steep=None, degen=None, keep_root=False, shuffle=None):
     """build one repository + accessor call; returns dict with driver line(s) and observations.
     `fixed` (replay): dict(species, ch, tr, tab, wls, fb, extra) instead of generated content"""
     from cherab.openadas import OpenADAS, repository as R
@@ -1235,6 +1235,9 @@ def numeric_case(ctx, cat, repo, name, dims, ex, gap=None, fixed=None, steep=Non
             wls[s.symbol] = fixed['wls'][s.symbol] if fixed else _sig(rng.uniform(90.0, 1200.0))
             R.update_wavelengths({s: {wch: {tr: wls[s.symbol]}}}, repository_path=root)
     fb = rng.random() < 0.5 if fb is None else fb
+    if shuffle if shuffle is not None else (not fixed and rng.random() < 0.35):
+        shuffle_json_files(rng, root)            # legal but unusual key order in every repository file
+        ctx.count('files-in-shuffled-key-order')
     a = OpenADAS(data_path=root, permit_extrapolation=ex, missing_rates_return_null=rng.random() < 0.5, wavelength_element_fallback=fb)
     st, val, in_list = call_accessor(spec, a, species, ch, tr)
     if not keep_root:
@@ -1745,6 +1748,108 @@ def alias_stream(ctx, cat):
     return n
 
 
+# ------------------------------------------------------------------------------------------------ repository files in unusual key order (K + S)
+def shuffle_json_files(rng, root, order=None):
+    """rewrite every .json under `root` with its object keys (all levels) in a random -- or the given top-down -- order:
+    the same JSON value, a different text"""
+    def shuf(v, depth=0):
+        if isinstance(v, dict):
+            ks = list(v)
+            rng.shuffle(ks)
+            return {k: shuf(v[k], depth + 1) for k in ks}
+        return v
+    for dp, _, fs in os.walk(root):
+        for f in fs:
+            if f.endswith('.json'):
+                pth = os.path.join(dp, f)
+                v = json.load(open(pth))
+                w = shuf(v)
+                if order and 'beam/cx' in pth.replace(os.sep, '/'):
+                    w = {tr: {k: t[k] for k in [str(m) for m in order if str(m) in t] + [k for k in t if k not in [str(m) for m in order]]}
+                         for tr, t in w.items()}
+                with open(pth, 'w') as fh:
+                    json.dump(w, fh, indent=1)
+
+
+def order_case(ctx, cat, repo, order, ex, tables=None, species=None, verbose=False):
+    """beam_cx_pec (the one family the provider returns as a list): metastables stored in the JSON order `order`; every
+    returned BeamCXPEC must reproduce the table stored under ITS OWN label"""
+    from cherab.openadas import OpenADAS, repository as R
+    from cherab.core.atomic import elements as E
+    rng = ctx.rng
+    spec = cat['beam_cx_pec']
+    species = species or [rng.choice([E.hydrogen, E.deuterium]), rng.choice([E.carbon, E.neon, E.carbon13])]
+    ch, tr = dict(charge=1, donor_charge=0, metastable=1), (3, 2)
+    if tables is None:
+        one = gen_table(rng, 'beamCX', (3, 2, 2, 2, 2))
+        base = one['metastables'][sorted(one['metastables'])[0]]
+        tables = {m: dict(base, qeb=[_sig(q * (1.0 + 0.37 * k)) for q in base['qeb']]) for k, m in enumerate(sorted(order))}
+    root = repo.fresh()
+    spec['write'](root, tuple(_elem(s) for s in species), ch, tr, _cx_copy(dict(metastables=tables)))
+    wl = 529.0
+    for s in {species[1].symbol: species[1], _elem(species[1]).symbol: _elem(species[1])}.values():
+        R.update_wavelengths({s: {0: {tr: wl}}}, repository_path=root)
+    shuffle_json_files(rng, root, order=order)
+    a = OpenADAS(data_path=root, permit_extrapolation=ex)
+    st, val, in_list = call_accessor(spec, a, species, ch, tr)
+    repo.drop(root)
+    d = dict(kind='order', accessor='beam_cx_pec', species=[s.name for s in species], file_order=list(order), extrapolate=ex,
+             tables={str(m): t for m, t in tables.items()})
+    lines, checks = [], []
+    if st != 'ok':
+        fail(ctx, 'C07:beam_cx_pec:raises-with-data-present:%s' % st, 'beam_cx_pec raised %s on a file with metastable order %s' % (st, list(order)), d)
+        return lines, checks
+    labels = [r.donor_metastable for r in val]
+    if sorted(labels) != sorted(tables):
+        fail(ctx, 'C07:beam_cx_pec:metastable-list', 'returned metastables %s for stored %s (file order %s)' % (labels, sorted(tables), list(order)), d)
+        return lines, checks
+    for r in val:
+        m = r.donor_metastable
+        wt = tables[m]
+        pts = [p for p in eval_points(rng, 'beamCX', wt, 0) if p[0] == 'knot'][:6]
+        res = [impl_eval(r, p[1]) for p in pts]
+        lines.append(rate_line('BeamCXPEC', 'beamCX', ex, wl, wt, [p[1] for p in pts]))
+        checks.append((m, pts, res, d))
+        for (kind, args, info), (ist, iv) in zip(pts, res):
+            ctx.count('order:knot')
+            ctx.case(key=('order', tuple(order), m, tuple(info['idx'])))
+            want = expected_at('beamCX', wt, info['idx'], wl)
+            if ist != 'ok' or not close(iv, want, 1e-9):
+                other = [k for k, t in tables.items() if k != m and ist == 'ok' and close(iv, expected_at('beamCX', t, info['idx'], wl), 1e-9)]
+                fail(ctx, 'C07:beam_cx_pec:metastable-label-table-mismatch',
+                     'beam_cx_pec on a file listing the donor metastables in the order %s: the BeamCXPEC labelled donor_metastable=%d returns %s at grid '
+                     'point %r, the table stored under %d gives %r%s' % (list(order), m, iv if ist == 'ok' else ist, args, m, want,
+                                                                         ' (that is the table of metastable %s)' % other if other else ''), dict(d, metastable=m, args=args))
+                break
+    if verbose:
+        print('labels returned:', labels)
+    return lines, checks
+
+
+def order_stream(ctx, cat):
+    repo = Repo()
+    rng = ctx.rng
+    orders = [(2, 1), (1, 10, 2), (10, 2), (3, 12, 1, 7), tuple(range(12, 0, -1)), (1, 2, 3)]
+    for _ in range(ctx.n(3, 12)):
+        ms = rng.sample(range(1, 13), rng.randint(2, 6))
+        orders.append(tuple(ms))
+    lines, checks = [], []
+    for order in orders:
+        ln, ck = order_case(ctx, cat, repo, order, rng.random() < 0.5)
+        lines += ln
+        checks += ck
+    repo.close()
+    outs = drive(ctx, lines) if lines else []
+    for (m, pts, res, d), out in zip(checks, outs):
+        mods = [parse_out(t) for t in out.split()]
+        for (kind, args, info), (ist, iv), (mst, mv) in zip(pts, res, mods):
+            ctx.traces += 1
+            if ist != mst or (ist == 'ok' and not close(iv, mv, 1e-9)):
+                ctx.disagreements += 1
+                _broke(ctx, 'file key order beam_cx_pec', dict(input=dict(d, metastable=m, args=args), model=[mst, mv], implementation=[ist, iv]))
+    return len(checks)
+
+
 # ------------------------------------------------------------------------------------------------ repeated calls on one rate object (K + S)
 # The sentence speaks of "every rate object": each call on a live object must behave exactly like the same call on a
 # freshly constructed one (value, or exception kind) -- a rate object that remembers anything from earlier calls
@@ -2006,7 +2111,8 @@ def setup(ctx):
 
 
 def describe(ctx):
-    ctx.rule = ('alias: every rate class constructed directly from caller-owned float64-C / Fortran / strided-view / float32 / int64 / nested-list data, caller '
+    ctx.rule = ('order: repository files rewritten with shuffled JSON key order (35% of the numeric cases, every family) and beam-CX files listing up to 12 '
+                'donor metastables in non-numeric order: each returned BeamCXPEC must reproduce the table stored under its own label; alias: every rate class constructed directly from caller-owned float64-C / Fortran / strided-view / float32 / int64 / nested-list data, caller '
                 'overwrites its storage, second object from the same dict, private-copy reference: bit-identical evaluations, caller data untouched; combo: per class every pair of argument positions x {0, -1, below, above, first knot, last knot}^2, other arguments inside, both extrapolation '
                 'settings, judged by the decision table zero-guard > range policy > value; repeat: one live rate object per accessor/shape/extrapolation answering 40-90 calls (in-range, out-of-range, the same out-of-range again, '
                 'in-range again, non-positive, grid points, random order), each against a freshly constructed object; degenerate: flat / all-ones / '
@@ -2063,6 +2169,7 @@ def run(ctx):
         numeric_stream(ctx, cat, plan_numeric(ctx, cat))
         ctx.count('repeat-calls', repeat_stream(ctx, cat))
         ctx.count('combo-calls', combo_stream(ctx, cat))
+        ctx.count('order-objects', order_stream(ctx, cat))
         ctx.count('alias-evaluations', alias_stream(ctx, cat))
         ctx.extra['float32_constructor_arithmetic_max_rel_dev'] = FLOAT32_DEV[0]
         deviants_tie(ctx)
@@ -2087,6 +2194,10 @@ def run_record(ctx, cat, repo, d, verbose=False):
         model = drive(ctx, [line])[0]
     elif d.get('kind') == 'sequence':
         return run_sequence_record(ctx, cat, d)
+    elif d.get('kind') == 'order':
+        order_case(ctx, cat, repo, tuple(d['file_order']), d['extrapolate'], tables={int(m): t for m, t in d['tables'].items()},
+                   species=[getattr(E, n) for n in d['species']], verbose=verbose)
+        return True
     elif d.get('kind') == 'repeat':
         spec = cat[d['accessor']]
         tab = d['table']
